@@ -136,6 +136,7 @@ def run(ctx):
     nmesh = mesh_function_level(ctx, rep)
     inv = inverse_function_level(ctx, rep)
     runlevel.with_extra(ctx, "c01logdec", lambda: logdec_specs(ctx))
+    runlevel.with_extra(ctx, "c01forcemesh", lambda: forced_poll_mesh_specs(ctx))
     stats, samples = runlevel.pipe_replay(ctx, rep, "C01")
     fcov = runlevel.filter_events(ctx, rep, want_clauses=("in_box",))
     traces = runlevel.get_pool(ctx)
@@ -173,6 +174,24 @@ def _replay_inverse(ctx, rep, c):
     if any(not (l <= v <= u) for v, l, u in zip(x, c["lb"], c["ub"])):
         rep.violation("orig_box", "variables_transformer.py:inverse_transf", f"inverse_transf(u) lies outside the hard bounds: u={c['u']} -> x={[float(v) for v in x]}", c)
     return rep
+
+
+def forced_poll_mesh_specs(ctx):
+    """force_poll_mesh = True (poll points are snapped to the search mesh) with the mesh allowed to get coarser again (search_mesh_expand,
+    noisy targets), the optimum on or beyond a face whose bound is not a mesh point: a snapped poll point must still be inside the box."""
+    from .. import gen
+    rng = ctx.sub_rng("c01forcemesh")
+    specs = []
+    for i in range(8 if ctx.quick else 60):
+        mode = ["det", "decl", "he", "det"][i % 4]
+        sp = gen.make_spec(rng, D=rng.choice([2, 2, 3]), geom=rng.choice(["box", "logbox", "x0_near_bound"]), mode=mode, cons=None, opt_loc=rng.choice(["on_bound", "outside"]),
+                           target=rng.choice(["quad", "abs"]))
+        if sp["geom"] == "x0_near_bound":
+            sp["x0_near"] = [rng.choice([0.01, -0.01, 0.002]) for _ in range(sp["D"])]
+        sp["options"] = {"n_search": 32, "force_poll_mesh": True, "search_mesh_expand": rng.choice([0, 1, 1, 2]), "max_fun_evals": 110 if mode == "det" else 150,
+                         "noise_final_samples": 0}
+        specs.append(sp)
+    return specs
 
 
 def widen(ctx, rep0):
